@@ -196,6 +196,15 @@ impl<L: Language> ReferentRule<L> {
     Some(func(rule))
   }
 
+  /// Whether the rule referred to reaches the utility `id` again.
+  /// Utils of several maps (rule, rewriters) share one registration, a cycle can span them.
+  pub(super) fn refers_to(&self, id: &str) -> bool {
+    self
+      .eval_local(|r| r.check_cyclic(id))
+      .or_else(|| self.eval_global(|r| r.check_cyclic(id)))
+      .unwrap_or(false)
+  }
+
   pub(super) fn verify_util(&self) -> Result<(), ReferentRuleError> {
     let rules = self.reg_ref.get_local();
     if rules.contains_key(&self.rule_id) {
